@@ -729,7 +729,7 @@ const (
 type netScenario struct {
 	k           *mon.Case
 	trigger     string
-	V, O, B     *p2pnet.Node
+	V, O, B, O2 *p2pnet.Node // O2: a second peer (own identity) behind the offender's IP
 	served      atomic.Int64 // V's "ok" handler invocations for requests from O
 	servedB     atomic.Int64
 	syncInvalid atomic.Int64 // invalid sync-style requests seen by the victim's handler
@@ -777,8 +777,12 @@ func waitUntil(d time.Duration, cond func() bool) bool {
 }
 
 func (ns *netScenario) startNode(ip string, victim bool, blacklist []string) (*p2pnet.Node, error) {
+	seed := "c18-" + ip // "ip#tag": same address, another identity
+	if i := strings.IndexByte(ip, '#'); i >= 0 {
+		ip = ip[:i]
+	}
 	return p2pnet.StartNode(p2pnet.NodeOptions{
-		IP: ip, Seed: "c18-" + ip, Blacklist: blacklist,
+		IP: ip, Seed: seed, Blacklist: blacklist,
 		Setup: func(c *p2p.ExtendedConnection) {
 			lim, pen := 1<<30, 0
 			if victim {
@@ -895,7 +899,7 @@ func (ns *netScenario) vSeesOfrom(ip string) bool {
 }
 
 func (ns *netScenario) stop() {
-	for _, n := range []*p2pnet.Node{ns.O, ns.B, ns.V} {
+	for _, n := range []*p2pnet.Node{ns.O, ns.O2, ns.B, ns.V} {
 		if n != nil {
 			n.Stop()
 		}
@@ -946,6 +950,27 @@ func runNetBan(k *mon.Case) {
 	if err != nil {
 		k.Inconclusive("connect-failed")
 		return
+	}
+	// sometimes a second peer sits behind the offender's IP (penalties and bans are per IP)
+	if r.Intn(2) == 0 {
+		if o2, e := ns.startNode("127.0.0.3#second", false, nil); e == nil {
+			ns.O2 = o2
+			if e := ns.O2.ConnectTo(bg, ns.V); e != nil || !ns.V.Connected(ns.O2) {
+				ns.O2.Stop()
+				ns.O2 = nil
+			} else {
+				same := false
+				for _, c := range ns.V.Conn.ConnsToPeer(ns.O2.ID()) {
+					if strings.HasPrefix(c.RemoteMultiaddr().String(), "/ip4/127.0.0.3/") {
+						same = true
+					}
+				}
+				if !same {
+					ns.O2.Stop()
+					ns.O2 = nil
+				}
+			}
+		}
 	}
 	var seenAs []string
 	for _, c := range ns.V.Conn.ConnsToPeer(ns.O.ID()) {
@@ -1115,6 +1140,34 @@ func runNetBan(k *mon.Case) {
 		k.Count("disconnected_after_ban", 1)
 	}
 	waitUntil(5*time.Second, func() bool { return !ns.O.Connected(ns.V) })
+
+	if ns.O2 != nil {
+		ns.log("second peer behind %s still connected to V after the ban: %v (O2 sees V: %v)", offIP, ns.V.Connected(ns.O2), ns.O2.Connected(ns.V))
+	}
+	// (b2) a second peer behind the banned IP that is penalised while the ban stands has reached
+	// the threshold just the same: it must be disconnected too
+	if ns.O2 != nil && ns.V.Connected(ns.O2) {
+		ns.V.Conn.ApplyPenalty(ns.O2.ID(), 1+r.Intn(40))
+		sc, _, has := g.Score(offIP)
+		if has && sc >= p2p.MaxPenaltyScore {
+			k.Count("second_peer_behind_banned_ip_penalised", 1)
+			if !waitUntil(10*time.Second, func() bool { return !ns.V.Connected(ns.O2) }) {
+				before := ns.served.Load() + ns.servedB.Load()
+				d, e := ns.request(ns.O2, ns.V, "ok", []byte("hello"))
+				k.Violation("penalised-peer-of-banned-ip-not-disconnected", "a peer whose IP total is at or above the ban threshold was penalised and stays connected",
+					ns.wit(map[string]any{"ip_score": sc, "reply": d, "error": fmt.Sprint(e), "served_before": before}))
+				_ = ns.V.Conn.Disconnect(ns.O2.ID())
+			}
+		} else {
+			k.Count("second_peer_penalty_after_expiry_not_judged", 1)
+		}
+	} else if ns.O2 != nil {
+		k.Count("second_peer_already_disconnected_by_the_ban", 1)
+	}
+	if ns.O2 != nil {
+		ns.O2.Stop()
+		ns.O2 = nil
+	}
 
 	// (c) bystander unaffected
 	if ns.B != nil {
